@@ -1,5 +1,6 @@
 import DFV.Json
 import DFV.Model.C01
+import DFV.Model.C15
 namespace DFV.Drv
 open Lean DFV
 
@@ -25,8 +26,12 @@ def c01 (op : String) (j : Json) : Option (R Json) :=
       pure (Json.mkObj [("cell", ratsJ m.cell), ("len", .num (JsonNumber.fromNat m.len)),
         ("cells", listJ ratsJ m.cells), ("vertices", listJ ratsJ m.vertices),
         ("indices", listJ natsJ (indicesCode m.n)), ("iter", listJ ratsJ m.iter),
-        ("coord", listJ ratsJ ((indicesCode m.n).map m.coordField)),
+        ("coord", listJ ratsJ ((indicesCode m.n).map m.coordFieldCode)),
+        ("coord_spec", .bool ((indicesCode m.n).map m.coordFieldCode == (indicesCode m.n).map m.coordField)),
+        ("cell_fl", ratsJ (tab m.ndim (m.cellAtFl C15.fl64))),
+        ("cells_fl", listJ ratsJ (m.cellsFl C15.fl64)), ("vertices_fl", listJ ratsJ (m.verticesFl C15.fl64)),
         ("dV", ratToJson m.dV), ("volume", ratToJson m.region.volume),
+        ("dV_fl", ratToJson (m.dVFl C15.fl64)), ("volume_fl", ratToJson (m.region.volumeFl C15.fl64)),
         ("indices_spec", .bool (indicesCode m.n == indicesF m.n))])
   | "mesh_info_big" => some do
       let m ← meshOfJson (← fld j "mesh")
@@ -35,6 +40,8 @@ def c01 (op : String) (j : Json) : Option (R Json) :=
       let vs := m.vertices
       pure (Json.mkObj [("cell", ratsJ m.cell), ("len", .num (JsonNumber.fromNat m.len)),
         ("dV", ratToJson m.dV), ("volume", ratToJson m.region.volume),
+        ("dV_fl", ratToJson (m.dVFl C15.fl64)), ("volume_fl", ratToJson (m.region.volumeFl C15.fl64)),
+        ("cell_fl", ratsJ (tab m.ndim (m.cellAtFl C15.fl64))),
         ("ax_len", listJ natsJ [cs.map List.length, vs.map List.length]),
         ("cells_at", listJ ratsJ (idxs.map fun i => tab m.ndim fun a => (cs.getD a []).getD (i.getD a 0) 0)),
         ("verts_at", listJ ratsJ (idxs.map fun i => tab m.ndim fun a => (vs.getD a []).getD (i.getD a 0) 0))])
@@ -46,7 +53,14 @@ def c01 (op : String) (j : Json) : Option (R Json) :=
       -- also report the exact fractional position of p in cell units, for the boundary comparator
       let q := tab m.ndim fun a => (p.getD a 0 - m.region.lo a) / m.cellAt a
       let frac := q.map fun x => x - (x.floor : Rat)
-      pure ((resJ natsJ (m.point2index p)).setObjVal! "frac" (ratsJ frac))
+      pure (((resJ natsJ (m.point2index p)).setObjVal! "frac" (ratsJ frac)).setObjVal! "q" (ratsJ q))
+  | "point2index_fl" => some do
+      -- the same with every operation rounded to binary64 (`C15.fl64`), incl. the containment test
+      let m ← meshOfJson (← fld j "mesh"); let p ← rats j "p"
+      pure ((resJ natsJ (m.point2indexFl C15.fl64 p)).setObjVal! "inreg" (.bool (m.region.containsPtFl C15.fl64 p)))
+  | "index2point_fl" => some do
+      let m ← meshOfJson (← fld j "mesh"); let i ← ints j "index"
+      pure (resJ ratsJ (m.index2pointFl C15.fl64 i))
   | _ => none
 
 end DFV.Drv
